@@ -109,7 +109,11 @@ struct History {
       std::string nm; { Quiet q; MASA::masa_get_name<Scalar>(&nm); } if (nm != kv.second.name) { fail(prop, ctx + ": handle '" + kv.first + "' is a " + nm + ", the model says " + kv.second.name); break; }
       if (!same<Scalar>(cur, kv.second, why)) { fail(prop, ctx + ": handle '" + kv.first + "' (" + kv.second.name + "): " + why); break; } }
     { Quiet q; MASA::masa_select_mms<Scalar>(keep); } }
-  void audit_all(const std::string &prop, const std::string &ctx) { audit<double>(0, prop, ctx); if (!failed()) audit<long double>(1, prop, ctx); if (!failed()) { check_list<double>(0, prop, ctx); check_list<long double>(1, prop, ctx); } }
+  void check_selected_both(const std::string &prop, const std::string &ctx) { check_selected<double>(0, prop, ctx); if (!failed()) check_selected<long double>(1, prop, ctx); }
+  void audit_all(const std::string &prop, const std::string &ctx) {
+    // the audit itself selects every handle and finally re-selects the model's one, which would repair a wrong selection: look at the currently selected objects first
+    check_selected_both(prop, ctx + " (currently selected solution)"); if (failed()) return;
+    audit<double>(0, prop, ctx); if (!failed()) audit<long double>(1, prop, ctx); if (!failed()) { check_list<double>(0, prop, ctx); check_list<long double>(1, prop, ctx); } }
 
   template <class Scalar> void check_list(int P, const std::string &prop, const std::string &ctx) { Registry &R = reg[P]; Quiet q; MASA::masa_list_mms<Scalar>(); std::string out = q.str(); std::stringstream ss(out); std::string line; std::vector<std::pair<std::string, std::string>> got; long n = -1;
     while (std::getline(ss, line)) { if (line.rfind("Number of initialized solutions: ", 0) == 0) { n = atol(line.c_str() + 33); continue; } auto p = line.rfind(" : "); if (p != std::string::npos) got.push_back({line.substr(0, p), line.substr(p + 3)}); }
@@ -285,7 +289,13 @@ struct History {
     if (f.code != 1) { fail("C16", what + (cfg.fatal_mode ? " ended the process with status " : " threw ") + std::to_string(f.code) + " instead of 1"); return; }
     if (f.out.find("MASA FATAL ERROR") == std::string::npos) { fail("C16", what + " did not report 'MASA FATAL ERROR' (output: '" + f.out.substr(0, 100) + "')"); return; }
     // caught: registry, selection and every parameter exactly as before (the model did not move)
-    if (cfg.fatal_mode == 0) { audit_all("C16", "after the caught fatal error of " + what); if (!failed()) { for (int p = 0; p < 2; p++) if (reg[p].has_selected) { std::string nm; { Quiet q; if (p) masa_get_name<long double>(&nm); else masa_get_name<double>(&nm); } if (nm != reg[p].handles[reg[p].selected].name) fail("C16", "selection changed by the failed call: " + what); } } }
+    if (cfg.fatal_mode == 0) {
+      // the selection first (the audit below re-selects every handle and would repair a lost selection), then every handle of both registries
+      for (int p = 0; p < 2 && !failed(); p++) { std::string nm; bool threw = false; { Quiet q; try { if (p) masa_get_name<long double>(&nm); else masa_get_name<double>(&nm); } catch (int) { threw = true; } }
+        if (reg[p].has_selected) { if (threw) fail("C16", "after the caught fatal error of " + what + " the " + (p ? "long double" : "double") + " registry has no selected solution any more"); else if (nm != reg[p].handles[reg[p].selected].name) fail("C16", "after the caught fatal error of " + what + " the selected solution is " + nm + ", before it was " + reg[p].handles[reg[p].selected].name); }
+        else if (!threw) fail("C16", "after the caught fatal error of " + what + " a solution (" + nm + ") is selected in a registry that had none"); }
+      if (!failed()) check_selected_both("C16", "after the caught fatal error of " + what);
+      if (!failed()) audit_all("C16", "after the caught fatal error of " + what); }
   }
 
   void run_step(const Op &raw) { Op o = raw; o.code = (int)((unsigned)o.code % OP_COUNT); o.prec &= 1; step++; trace.push_back(std::string(OP_NAMES[o.code]) + (o.code < OP_CINIT ? (o.prec ? "<long double>" : "<double>") : ""));
